@@ -10,7 +10,12 @@
 //!      emitted document into the same text and the same signature packets; every text line that
 //!      starts with '-' is dash-escaped;
 //!  (d) binding: edited documents (built with the reference dash-escaper around the original
-//!      signature block) verify iff the reference signed form of the edited text is unchanged.
+//!      signature block) verify iff the reference signed form of the edited text is unchanged;
+//!  (e) several signatures (family M): signature lists built from real signatures with known signer,
+//!      issuer subpackets (own / none / naming another key) and signed text (message text / EMPTY text /
+//!      another text), in every order: `verify(K)` succeeds iff the list holds K's signature over the
+//!      message text, wherever it sits and whatever the verifier walks past before it; judged on the
+//!      fresh message, on a reference-built document and on the library-written document.
 //!
 //! Signature scheme: `C16/<oracle>/<symptom>[/<api>][/<input-class>]`.
 
@@ -20,7 +25,7 @@ use pgp::composed::{
     ArmorOptions, CleartextSignedMessage, SignedPublicKey, SignedSecretKey,
 };
 use pgp::crypto::hash::HashAlgorithm;
-use pgp::packet::{SignatureConfig, SignatureType, Subpacket, SubpacketData};
+use pgp::packet::{Signature, SignatureConfig, SignatureType, Subpacket, SubpacketData};
 use pgp::ser::Serialize;
 use pgp::types::{KeyDetails, KeyVersion, Password, Timestamp};
 use rand::seq::SliceRandom;
@@ -115,6 +120,9 @@ fn text_classes(t: &str) -> Vec<&'static str> {
     if t.contains("\r\n") {
         v.push("crlf");
     }
+    if t.contains(" \r\n") || t.contains("\t\r\n") {
+        v.push("blanks-before-crlf");
+    }
     let b = t.as_bytes();
     if (0..b.len()).any(|i| b[i] == b'\n' && (i == 0 || b[i - 1] != b'\r')) {
         v.push("bare-lf");
@@ -195,6 +203,8 @@ struct Env {
 const K4: usize = 0; // v4 Ed25519Legacy
 const K6: usize = 1; // v6 Ed25519
 const KP: usize = 2; // v4 ECDSA P-256
+const K4B: usize = 3; // a second v4 Ed25519Legacy key
+const K6B: usize = 4; // a second v6 Ed25519 key
 
 impl Env {
     fn new() -> Env {
@@ -202,6 +212,8 @@ impl Env {
             zoo::key(&zoo::Spec::simple(false, zoo::Alg::Ed25519Legacy, None), 0),
             zoo::key(&zoo::Spec::simple(true, zoo::Alg::Ed25519, None), 0),
             zoo::key(&zoo::Spec::simple(false, zoo::Alg::EcdsaP256, None), 0),
+            zoo::key(&zoo::Spec::simple(false, zoo::Alg::Ed25519Legacy, None), 1),
+            zoo::key(&zoo::Spec::simple(true, zoo::Alg::Ed25519, None), 1),
         ];
         let pk = sk.iter().map(|k| k.to_public_key()).collect();
         let cfgs = vec![
@@ -893,6 +905,9 @@ fn check_text(ctx: &mut Ctx, env: &Env, family: &str, t: &str, cfg_idx: usize, o
         ctx.eval();
         ctx.seen("edit", format!("{kind}:{}", if same { "must-verify" } else { "must-fail" }));
         ctx.tally(if same { "binding.edits.must-verify" } else { "binding.edits.must-fail" }, 1);
+        if (kind.starts_with("doc-") || kind.starts_with("text-")) && (t.contains(" \r\n") || t.contains("\t\r\n") || eff.contains(" \r\n") || eff.contains("\t\r\n")) {
+            ctx.seen("line-end-conversion-with-blanks-before-crlf", kind);
+        }
         match r {
             Err(e) => {
                 if same {
@@ -1067,6 +1082,546 @@ fn api_variants(
             }
         }
     }
+}
+
+
+// ------------------------------------------------------------------------------------------
+// family M: messages with several signatures, judged at `verify(key)` / `verify_many`
+//
+// A message's signature list is a sequence of elements (signer, issuer subpackets, text the
+// signature was made over). Every element is a real signature; the text it is over is the
+// reference signed form of the message text (T), the empty text, or another text. Whether
+// `verify(K)` must succeed follows from the construction alone: it must iff the list holds a
+// signature by K over T (wherever it sits), and it must fail iff no signature by K is over T
+// (whatever else by K, anonymous or naming K, sits in the list).
+
+#[derive(Clone, Copy, PartialEq, Eq, Hash, Debug)]
+enum Iss {
+    /// issuer fingerprint (+ key id for v4) of the signer
+    Full,
+    /// no issuer subpackets at all (they are optional): every key is a candidate
+    Anon,
+    /// issuer subpackets that name another key than the signer (the other signer of the group)
+    NamesOther,
+}
+
+#[derive(Clone, Copy, PartialEq, Eq, Hash, Debug)]
+enum Over {
+    T,
+    Empty,
+    Other,
+}
+
+struct Elem {
+    key: usize,
+    iss: Iss,
+    /// key named by the issuer subpackets
+    names: Option<usize>,
+    over: Over,
+    /// the text this signature is over has the signed form of the message text
+    over_t: bool,
+    label: String,
+    sig: Signature,
+    body: Vec<u8>,
+    hash_id: u8,
+    /// reference digests of this signature over: the text it was made for, the message text, the empty text
+    own_digest: Vec<u8>,
+    t_digest: Vec<u8>,
+    empty_digest: Vec<u8>,
+}
+
+struct Group {
+    name: &'static str,
+    signers: [usize; 2],
+    /// a key that made no signature of the list
+    bystander: usize,
+}
+
+const GROUPS: [Group; 4] = [
+    Group { name: "v4-ed25519legacy+v4-ecdsa-p256", signers: [K4, KP], bystander: K4B },
+    Group { name: "v4-ed25519legacy+v4-ed25519legacy", signers: [K4, K4B], bystander: KP },
+    Group { name: "v6-ed25519+v6-ed25519", signers: [K6, K6B], bystander: K4 },
+    Group { name: "v4-ed25519legacy+v6-ed25519", signers: [K4, K6], bystander: KP },
+];
+
+const M_HASHES: [HashAlgorithm; 3] = [HashAlgorithm::Sha256, HashAlgorithm::Sha512, HashAlgorithm::Sha3_256];
+
+fn hash_header_name(id: u8) -> Option<&'static str> {
+    Some(match id {
+        8 => "SHA256",
+        9 => "SHA384",
+        10 => "SHA512",
+        11 => "SHA224",
+        12 => "SHA3-256",
+        14 => "SHA3-512",
+        _ => return None,
+    })
+}
+
+fn key_name(k: usize) -> &'static str {
+    ["v4-ed25519legacy#0", "v6-ed25519#0", "v4-ecdsa-p256#0", "v4-ed25519legacy#1", "v6-ed25519#1"][k]
+}
+
+fn is_v6(env: &Env, k: usize) -> bool {
+    env.sk[k].primary_key.version() == KeyVersion::V6
+}
+
+/// a text whose signed form differs from that of `t` and from the empty text
+fn other_text(t: &str) -> String {
+    match hash64(&("other", t)) % 3 {
+        0 => format!("{t}x"),
+        1 => format!("x\n{t}"),
+        _ => format!("{t}\ny"),
+    }
+}
+
+/// The 18 elements of a (text, group): signer x issuer subpackets x text signed. Generator
+/// failures (the library does not produce a signature over the intended bytes) are inconclusive.
+fn make_elems(ctx: &mut Ctx, env: &Env, t: &str, signed_ref: &str, g: &Group) -> Option<Vec<Elem>> {
+    let other_form = rfc::armor::csf_signed_form(&other_text(t));
+    if other_form == signed_ref || other_form.is_empty() {
+        ctx.inconclusive("harness: no other text for the multi-signature family");
+        return None;
+    }
+    let pw = Password::empty();
+    let th = hash64(&("m-hash", t));
+    let mut out = vec![];
+    for (si, &k) in g.signers.iter().enumerate() {
+        for (ii, iss) in [Iss::Full, Iss::Anon, Iss::NamesOther].into_iter().enumerate() {
+            for (oi, over) in [Over::T, Over::Empty, Over::Other].into_iter().enumerate() {
+                let form: &str = match over {
+                    Over::T => signed_ref,
+                    Over::Empty => "",
+                    Over::Other => &other_form,
+                };
+                let hash = M_HASHES[((th as usize % 3) + si + ii * 2 + oi) % 3];
+                let names = match iss {
+                    Iss::Full => Some(k),
+                    Iss::Anon => None,
+                    Iss::NamesOther => {
+                        // the other signer; in the mixed-version group (a v4 signature cannot carry a v6
+                        // fingerprint) another key of the signer's version
+                        let o = g.signers[1 - si];
+                        Some(if is_v6(env, o) == is_v6(env, k) {
+                            o
+                        } else if is_v6(env, k) {
+                            K6B
+                        } else {
+                            g.bystander
+                        })
+                    }
+                };
+                let mut rng = ChaCha8Rng::seed_from_u64(hash64(&(ctx.seed, "c16m", t, g.name, si, ii, oi)));
+                let key = &env.sk[k].primary_key;
+                let made = (|| -> pgp::errors::Result<SignatureConfig> {
+                    let mut c = match key.version() {
+                        KeyVersion::V6 => SignatureConfig::v6(&mut rng, SignatureType::Text, key.algorithm(), hash)?,
+                        _ => SignatureConfig::v4(SignatureType::Text, key.algorithm(), hash),
+                    };
+                    c.hashed_subpackets =
+                        vec![Subpacket::regular(SubpacketData::SignatureCreationTime(Timestamp::from_secs(1_700_000_000)))?];
+                    if let Some(n) = names {
+                        let nk = &env.sk[n].primary_key;
+                        c.hashed_subpackets.push(Subpacket::regular(SubpacketData::IssuerFingerprint(nk.fingerprint()))?);
+                        if nk.version() != KeyVersion::V6 && key.version() != KeyVersion::V6 {
+                            c.unhashed_subpackets = vec![Subpacket::regular(SubpacketData::IssuerKeyId(nk.legacy_key_id()))?];
+                        }
+                    }
+                    Ok(c)
+                })();
+                let signer = RecSigner::new(key);
+                let sig = made.and_then(|c| c.sign(&signer, &pw, form.as_bytes()));
+                let seen = signer.take();
+                let sig = match sig {
+                    Ok(s) => s,
+                    Err(e) => {
+                        ctx.inconclusive(format!("harness: cannot make a signature for the multi-signature family ({}): {e}", g.name));
+                        return None;
+                    }
+                };
+                let Ok(body) = sig.to_bytes() else {
+                    ctx.inconclusive("signature does not serialise");
+                    return None;
+                };
+                let digests = rfc::sig::parse_sig(&body)
+                    .ok()
+                    .and_then(|rs| {
+                        Some((
+                            rs.digest_over(&[form.as_bytes()])?,
+                            rs.digest_over(&[signed_ref.as_bytes()])?,
+                            rs.digest_over(&[b""])?,
+                            rs.typ,
+                            rs.hash_alg,
+                        ))
+                    });
+                let Some((own_digest, t_digest, empty_digest, typ, hash_id)) = digests else {
+                    ctx.inconclusive("reference cannot parse a generated signature");
+                    return None;
+                };
+                if typ != 1 || seen.len() != 1 || seen[0].digest != own_digest {
+                    ctx.inconclusive("harness: generated signature is not over the intended text");
+                    return None;
+                }
+                let label = format!(
+                    "{}/{}/{}/hash{}",
+                    key_name(k),
+                    match iss {
+                        Iss::Full => "issuer-self".to_string(),
+                        Iss::Anon => "no-issuer".to_string(),
+                        Iss::NamesOther => format!("issuer-names-{}", key_name(names.unwrap_or(k))),
+                    },
+                    match over {
+                        Over::T => "over-message-text",
+                        Over::Empty => "over-empty-text",
+                        Over::Other => "over-other-text",
+                    },
+                    u8::from(hash)
+                );
+                out.push(Elem {
+                    key: k,
+                    iss,
+                    names,
+                    over,
+                    over_t: form == signed_ref,
+                    label,
+                    sig,
+                    body,
+                    hash_id,
+                    own_digest,
+                    t_digest,
+                    empty_digest,
+                });
+            }
+        }
+    }
+    Some(out)
+}
+
+/// Reference-built cleartext document: header, Hash headers, blank line, dash-escaped text, line
+/// ending, signature armor around the framed signature packets in list order.
+fn reference_document(t: &str, elems: &[&Elem]) -> Option<String> {
+    let mut doc = String::from(BEGIN_MSG);
+    doc.push('\n');
+    let mut ids: Vec<u8> = vec![];
+    for e in elems {
+        let id = e.hash_id;
+        if !ids.contains(&id) {
+            ids.push(id);
+        }
+    }
+    for id in ids {
+        doc.push_str("Hash: ");
+        doc.push_str(hash_header_name(id)?);
+        doc.push('\n');
+    }
+    doc.push('\n');
+    doc.push_str(&rfc::armor::dash_escape(t));
+    doc.push('\n');
+    let mut pk = vec![];
+    for e in elems {
+        pk.extend(rfc::frame::frame(2, &e.body, &rfc::frame::LenForm::NewMin)?);
+    }
+    doc.push_str(&rfc::armor::armor_encode("PGP SIGNATURE", &[], &pk, true, "\n"));
+    Some(doc)
+}
+
+#[derive(Clone, Copy, PartialEq, Eq, Debug)]
+enum Expect {
+    MustVerify,
+    MustFail,
+    Unjudged,
+}
+
+/// Does the signature get as far as hashing when it is checked against key `k` (version
+/// alignment, and issuer subpackets absent or naming `k`)?
+fn is_candidate(env: &Env, e: &Elem, k: usize) -> bool {
+    is_v6(env, e.key) == is_v6(env, k) && (e.names.is_none() || e.names == Some(k))
+}
+
+/// (expectation for `verify(k)`, class of what sits in front of the deciding signature)
+fn expectation(env: &Env, list: &[&Elem], k: usize) -> (Expect, &'static str) {
+    let good = list.iter().position(|e| e.key == k && e.over_t && e.iss != Iss::NamesOther);
+    let maybe = list.iter().any(|e| e.key == k && e.over_t);
+    let upto = good.unwrap_or(list.len());
+    let ahead = if list[..upto].iter().any(|e| is_candidate(env, e, k)) {
+        "behind-other-candidate-signatures"
+    } else {
+        "no-candidate-signature-ahead"
+    };
+    match (good, maybe) {
+        (Some(_), _) => (Expect::MustVerify, ahead),
+        (None, true) => (Expect::Unjudged, ahead),
+        (None, false) => (Expect::MustFail, ahead),
+    }
+}
+
+/// Judge `verify(k)` of one message for every key of the group and the bystander.
+#[allow(clippy::too_many_arguments)]
+fn judge_multi(
+    ctx: &mut Ctx,
+    env: &Env,
+    g: &Group,
+    t: &str,
+    list: &[&Elem],
+    stage: &'static str,
+    msg: &CleartextSignedMessage,
+    doc: Option<&str>,
+) {
+    let labels: Vec<&str> = list.iter().map(|e| e.label.as_str()).collect();
+    let replay = || -> Value {
+        json!({"family": "M", "t": hexs(t.as_bytes()), "t_str": dbg_str(t), "group": g.name, "signatures": labels,
+               "stage": stage, "document": doc.map(|d| hexs(d.as_bytes()))})
+    };
+    for k in [g.signers[0], g.signers[1], g.bystander] {
+        let (exp, ahead) = expectation(env, list, k);
+        let ver = RecVerifier::new(&env.pk[k].primary_key);
+        let r = ctx.guarded("C16/verify", replay, || msg.verify(&ver).map(|s| s.clone()).map_err(|e| e.to_string()));
+        ctx.eval();
+        let Some(r) = r else { continue };
+        let seen = ver.take();
+        // what the key was asked to check, in words
+        let hashed: Vec<&str> = seen
+            .iter()
+            .map(|d| {
+                if list.iter().any(|e| e.t_digest == d.digest) {
+                    "the message text"
+                } else if list.iter().any(|e| e.empty_digest == d.digest) {
+                    "the EMPTY text"
+                } else if list.iter().any(|e| e.own_digest == d.digest) {
+                    "another text"
+                } else {
+                    "unknown bytes"
+                }
+            })
+            .collect();
+        match exp {
+            Expect::Unjudged => ctx.tally("multi.verify.unjudged", 1),
+            Expect::MustVerify => {
+                ctx.tally("multi.verify.must-verify", 1);
+                ctx.seen("multi-sig", format!("must-verify/{ahead}"));
+                match r {
+                    Err(e) => ctx.violation(
+                        format!("C16/verify/signer-rejected/multi/{ahead}"),
+                        format!(
+                            "{stage}: verify({}) fails ({e}) although the message carries that key's signature over its text; t = {}; signatures {labels:?}; digests handed to the key were over: {hashed:?}",
+                            key_name(k),
+                            dbg_str(t)
+                        ),
+                        replay(),
+                    ),
+                    Ok(s) => {
+                        if !list.iter().any(|e| e.sig == s && e.key == k && e.over_t) {
+                            ctx.violation(
+                                "C16/verify/returns-foreign-signature/multi",
+                                format!(
+                                    "{stage}: verify({}) returns a signature that is not that key's signature over the text; t = {}; signatures {labels:?}",
+                                    key_name(k),
+                                    dbg_str(t)
+                                ),
+                                replay(),
+                            );
+                        }
+                    }
+                }
+            }
+            Expect::MustFail => {
+                ctx.tally("multi.verify.must-fail", 1);
+                let what = if list.iter().any(|e| e.key == k && e.over == Over::Empty && !e.over_t) {
+                    "signer-signed-empty-text"
+                } else if list.iter().any(|e| e.key == k) {
+                    "signer-signed-other-text"
+                } else {
+                    "key-signed-nothing"
+                };
+                ctx.seen("multi-sig", format!("must-fail/{what}/{ahead}"));
+                if let Ok(s) = r {
+                    let which = list.iter().find(|e| e.sig == s);
+                    let class = match which {
+                        Some(e) if e.key != k => "signature-of-another-key",
+                        Some(e) if e.over == Over::Empty => "signature-over-empty-text",
+                        Some(_) => "signature-over-other-text",
+                        None => "unlisted-signature",
+                    };
+                    ctx.violation(
+                        format!("C16/binding/other-text-signature-accepted/multi/{class}/{ahead}"),
+                        format!(
+                            "{stage}: verify({}) succeeds (returned {:?}) although no signature of that key is over the text t = {}; signatures {labels:?}; digests handed to the key were over: {hashed:?}",
+                            key_name(k),
+                            which.map(|e| e.label.as_str()),
+                            dbg_str(t)
+                        ),
+                        replay(),
+                    );
+                }
+            }
+        }
+    }
+}
+
+/// One message of family M: `list` indexes `elems`. Stages: the fresh `new_many` message, the
+/// reference-built document read with `from_string`, and (for `lib_roundtrip`) the library-written
+/// document read back.
+#[allow(clippy::too_many_arguments)]
+fn check_multi(
+    ctx: &mut Ctx,
+    env: &Env,
+    g: &Group,
+    t: &str,
+    elems: &[Elem],
+    idx: &[usize],
+    lib_roundtrip: bool,
+    per_signature: bool,
+) {
+    let list: Vec<&Elem> = idx.iter().map(|i| &elems[*i]).collect();
+    let labels: Vec<&str> = list.iter().map(|e| e.label.as_str()).collect();
+    let replay = || -> Value {
+        json!({"family": "M", "t": hexs(t.as_bytes()), "t_str": dbg_str(t), "group": g.name, "signatures": labels})
+    };
+    ctx.cover(&("multi", t, g.name, idx));
+    ctx.seen("multi-sig", format!("group/{}", g.name));
+    ctx.seen("multi-sig", format!("signatures/{}", idx.len().min(5)));
+    for (i, e) in list.iter().enumerate() {
+        if list[..i].iter().any(|p| p.key == e.key) {
+            ctx.seen("multi-sig", "several-signatures-of-one-key");
+        }
+        match e.iss {
+            Iss::Anon => ctx.seen("multi-sig", "signature-without-issuer-subpackets"),
+            Iss::NamesOther => ctx.seen("multi-sig", "signature-naming-another-key"),
+            Iss::Full => {}
+        }
+    }
+    ctx.tally("multi.messages", 1);
+
+    // ---- fresh message
+    let sigs: Vec<Signature> = list.iter().map(|e| e.sig.clone()).collect();
+    let Some(m) = ctx.guarded("C16/sign", replay, || CleartextSignedMessage::new_many(t, |_| Ok(sigs.clone()))) else { return };
+    ctx.eval();
+    let m = match m {
+        Ok(m) => m,
+        Err(e) => {
+            ctx.violation("C16/sign/error/new_many/multi", format!("new_many with {} signatures failed: {e}", sigs.len()), replay());
+            return;
+        }
+    };
+    if m.signatures() != &sigs[..] {
+        ctx.violation("C16/sign/signature-list-changed/new_many", format!("new_many changed the signature list; signatures {labels:?}"), replay());
+        return;
+    }
+    judge_multi(ctx, env, g, t, &list, "fresh new_many message", &m, None);
+
+    // ---- reference-built document
+    let Some(doc) = reference_document(t, &list) else {
+        ctx.inconclusive("harness: cannot build the reference document");
+        return;
+    };
+    let Some(r) = ctx.guarded("C16/parse", replay, || CleartextSignedMessage::from_string(&doc)) else { return };
+    ctx.eval();
+    let dreplay = || -> Value {
+        let mut r = replay();
+        r["document"] = json!(hexs(doc.as_bytes()));
+        r
+    };
+    let m3 = match r {
+        Ok((m3, _)) => m3,
+        Err(e) => {
+            ctx.violation(
+                "C16/roundtrip/parse-error/reference-document-multi",
+                format!("from_string rejects a reference-built document with {} signatures: {e}; t = {}", list.len(), dbg_str(t)),
+                dreplay(),
+            );
+            return;
+        }
+    };
+    if m3.signatures() != &sigs[..] || unescape(m3.text()).as_deref() != Ok(t) {
+        ctx.violation(
+            "C16/roundtrip/reference-document-reads-differently/multi",
+            format!("reference-built document reads back as text {} with {} signatures; t = {}", dbg_str(m3.text()), m3.signatures().len(), dbg_str(t)),
+            dreplay(),
+        );
+        return;
+    }
+    judge_multi(ctx, env, g, t, &list, "reference-built document", &m3, Some(&doc));
+
+    // ---- every signature against its own key, through verify_many
+    if per_signature {
+        let res: RefCell<Vec<bool>> = RefCell::new(vec![]);
+        let r = ctx.guarded("C16/verify", dreplay, || {
+            m3.verify_many(|i, sig, data| {
+                let ok = list.get(i).is_some_and(|e| sig.verify(&env.pk[e.key].primary_key, data).is_ok());
+                res.borrow_mut().push(ok);
+                Ok(())
+            })
+            .is_ok()
+        });
+        ctx.evals_add(list.len() as u64);
+        let res = res.into_inner();
+        if r.is_some() {
+            for (i, e) in list.iter().enumerate() {
+                let got = res.get(i).copied();
+                if e.over_t && e.iss != Iss::NamesOther && got != Some(true) {
+                    ctx.violation(
+                        "C16/verify/signer-rejected/multi/verify_many",
+                        format!("signature #{i} ({}) over the message text does not verify through verify_many; t = {}; signatures {labels:?}", e.label, dbg_str(t)),
+                        dreplay(),
+                    );
+                }
+                if !e.over_t && got == Some(true) {
+                    ctx.violation(
+                        "C16/binding/other-text-signature-accepted/multi/verify_many",
+                        format!("signature #{i} ({}) is not over the message text but verifies through verify_many; t = {}; signatures {labels:?}", e.label, dbg_str(t)),
+                        dreplay(),
+                    );
+                }
+            }
+        }
+    }
+
+    // ---- library-written document
+    if lib_roundtrip {
+        let Some(Ok(ldoc)) = ctx.guarded("C16/armor", replay, || m.to_armored_string(ArmorOptions::default())) else {
+            ctx.violation("C16/armor/error/new_many", "to_armored_string failed for a multi-signature message", replay());
+            return;
+        };
+        ctx.eval();
+        let Some(r) = ctx.guarded("C16/parse", replay, || CleartextSignedMessage::from_string(&ldoc)) else { return };
+        ctx.eval();
+        match r {
+            Err(e) => ctx.violation(
+                "C16/roundtrip/parse-error/other",
+                format!("from_string rejects the emitted multi-signature document: {e}; t = {}", dbg_str(t)),
+                replay(),
+            ),
+            Ok((m2, _)) => {
+                if m2.signatures() != &sigs[..] {
+                    ctx.violation("C16/roundtrip/signatures-changed", format!("signatures differ after the round trip; t = {}", dbg_str(t)), replay());
+                    return;
+                }
+                judge_multi(ctx, env, g, t, &list, "library-written document read back", &m2, Some(&ldoc));
+            }
+        }
+    }
+}
+
+/// `n` sampled signature lists (2..=5 of the 18 elements, repetitions allowed) for one text
+fn multi_sampled(ctx: &mut Ctx, env: &Env, t: &str, gi: usize, n: usize) {
+    let g = &GROUPS[gi];
+    let signed_ref = rfc::armor::csf_signed_form(t);
+    let Some(elems) = make_elems(ctx, env, t, &signed_ref, g) else { return };
+    for c in text_classes(t) {
+        ctx.seen("multi-text-class", c);
+    }
+    let mut rng = ChaCha8Rng::seed_from_u64(hash64(&(ctx.seed, "c16m-lists", t, gi)));
+    for j in 0..n {
+        let len = 2 + j % 4;
+        let idx: Vec<usize> = (0..len).map(|_| rng.gen_range(0..18usize)).collect();
+        check_multi(ctx, env, g, t, &elems, &idx, j % 3 == 0, j % 2 == 0);
+    }
+}
+
+/// Is the text judged in family M? (Texts of the two classes whose reading is a known finding /
+/// not settled are left to the other families.)
+fn multi_text_ok(t: &str) -> bool {
+    !t.ends_with('\r') && !cr_blanks_lf(t)
 }
 
 // ------------------------------------------------------------------------------------------
@@ -1325,6 +1880,99 @@ fn run_inner(ctx: &mut Ctx) {
                         check_text(ctx, &env, "W", &t, cfg, o);
                     }
                 }
+            }
+        }
+    }
+
+
+    // ---- family M: several signatures per message ------------------------------------------------
+    // M1: the empty text and single lines of <= 1 token; per (text, group) every list of one and of
+    //     two of the 18 elements (signer x issuer subpackets x text signed) in both orders, and sampled
+    //     lists of three to five; one case per first element.
+    // M2: two-line texts and random texts with sampled lists.
+    {
+        let mut m1: Vec<String> = vec![String::new()];
+        for l in &l1 {
+            for sep in ["\n", "\r\n"] {
+                for fin in [false, true] {
+                    let t = assemble(&[l], sep, fin);
+                    if multi_text_ok(&t) && !m1.contains(&t) {
+                        m1.push(t);
+                    }
+                }
+            }
+        }
+        m1.push("a \t\r\n- b\n\u{e9}\t \n".to_string());
+        let n_long: usize = ctx.qt(6, 40);
+        for (ti, t) in m1.iter().enumerate() {
+            // the empty text and the three-line text go through every group, the others through one
+            let every = ti == 0 || ti == m1.len() - 1;
+            for (gi, g) in GROUPS.iter().enumerate() {
+                let take = every || (ti + gi) % GROUPS.len() == 0 || (!ctx.quick() && (ti + gi) % 2 == 0);
+                if !take {
+                    continue;
+                }
+                for a in 0..18usize {
+                    if !ctx.mine() {
+                        continue;
+                    }
+                    describe_case(&format!("C16 M1 text {} group {} first element {a}", dbg_str(t), g.name));
+                    let signed_ref = rfc::armor::csf_signed_form(t);
+                    let Some(elems) = make_elems(ctx, &env, t, &signed_ref, g) else { continue };
+                    for c in text_classes(t) {
+                        ctx.seen("multi-text-class", c);
+                    }
+                    check_multi(ctx, &env, g, t, &elems, &[a], true, true);
+                    for b in 0..18usize {
+                        if b != a {
+                            check_multi(ctx, &env, g, t, &elems, &[a, b], (a + b) % 4 == 0, (a + b) % 3 == 0);
+                        }
+                    }
+                    let mut rng = ctx.rng("M1", hash64(&(t, gi, a)));
+                    for j in 0..n_long {
+                        let n = 3 + j % 3;
+                        let mut idx = vec![a];
+                        for _ in 1..n {
+                            idx.push(rng.gen_range(0..18usize));
+                        }
+                        check_multi(ctx, &env, g, t, &elems, &idx, j % 4 == 0, j % 3 == 0);
+                    }
+                }
+            }
+        }
+        // M2a: two lines of <= 1 token, each text with one group
+        let mut mi = 0u64;
+        for a in &l1 {
+            for b in &l1 {
+                mi += 1;
+                if !ctx.mine() {
+                    continue;
+                }
+                for (si, sep) in ["\n", "\r\n"].into_iter().enumerate() {
+                    let t = assemble(&[a, b], sep, (mi + si as u64) % 2 == 0);
+                    if !multi_text_ok(&t) {
+                        continue;
+                    }
+                    describe_case(&format!("C16 M2 text {}", dbg_str(&t)));
+                    multi_sampled(ctx, &env, &t, (mi as usize + si) % GROUPS.len(), ctx.qt(8, 40));
+                }
+            }
+        }
+        // M2b: random texts
+        let ngroups = ctx.qt(60u64, 1500u64);
+        for gidx in 0..ngroups {
+            if !ctx.mine() {
+                continue;
+            }
+            for j in 0..10u64 {
+                let i = gidx * 10 + j;
+                let mut rng = ctx.rng("M2", i);
+                let t = random_text(&mut rng);
+                if !multi_text_ok(&t) {
+                    continue;
+                }
+                describe_case(&format!("C16 M2 random text #{i}"));
+                multi_sampled(ctx, &env, &t, (i % GROUPS.len() as u64) as usize, ctx.qt(6, 12));
             }
         }
     }
